@@ -12,6 +12,24 @@ VERIF = Path(__file__).resolve().parent.parent
 
 # id -> (level category, technique, level text, level note, design section)
 CHECKS = {
+    "C08": (
+        "exploration",
+        "Hypothesis end-to-end search through parse_config_dict + run_bldfm_single with a centroid-bearing oracle; unit relations of the wind decomposition",
+        "Wind directions over all octants, stabilities, closures, lat/lon-placed towers, oblong grids; the bearing of the footprint's centre of mass (tower-centred disc, resolved domains only) must equal wind_dir within 12 degrees (calibrated max 6.5; convention errors are >= 45).",
+        "Bearing asserted only on resolved domains (>= 70 % of the unit mass inside the returned window, centroid >= 3 cells away); halo never 0.",
+    ),
+    "C13": (
+        "exploration",
+        "Hypothesis differential search: run_bldfm_single vs the hand-written pipeline with numbers read from the generated dictionary; YAML round trip",
+        "Exact (array_equal) agreement of the high-level run with the documented low-level pipeline for every generated configuration, tower and time index, plus metadata and YAML == dict parsing.",
+        "Only the wiring is compared; the low-level functions are the other properties' subject.",
+    ),
+    "C18": (
+        "exploration",
+        "Hypothesis round-trip search over generated result sets (all finite doubles, float32 fields, labels, forcings) and real driver output",
+        "save -> load must return bit-identical fields under the right (time, tower, level) labels, coordinates, tower metadata, met values and label-based selections.",
+        "Results keyed in configuration order; >= 2 cells per axis.",
+    ),
     "C09": (
         "exploration",
         "Hypothesis search with constructed physically-consistent parameters against independently written similarity formulas, grid anchors, round trip and scipy.quad",
